@@ -238,7 +238,12 @@ fn run_case(server: &mut Server, cs: &Case) -> CaseResult {
                 (Frame::Bulk(cur), Frame::Array(items)) => (cur.clone(), items.clone()),
                 _ => return fail(format!("{} -> {:?} (expected [cursor, [elements]])", crate::model::show_cmd(&cmd), r), "reply-shape", &labels, trace),
             },
-            Reply::Closed | Reply::Timeout => return CaseResult::infra(format!("{} -> {:?}", crate::model::show_cmd(&cmd), r)),
+            Reply::Closed | Reply::Timeout => {
+                if !server.alive() {
+                    return fail(format!("{} ended the server process ({})", crate::model::show_cmd(&cmd), server.panic_signature().unwrap_or_default()), "server-died", &labels, trace);
+                }
+                return CaseResult::infra(format!("{} -> {:?}", crate::model::show_cmd(&cmd), r));
+            }
             _ => return fail(format!("{} -> {:?} (expected [cursor, [elements]])", crate::model::show_cmd(&cmd), r), "reply-shape", &labels, trace),
         };
         if trace.len() < 30 {
